@@ -55,10 +55,11 @@ const (
 	OpSaveCS // SaveChangeSet built from the pending ops (C15)
 	OpExportOpen
 	OpExportClose
-	OpHold // obtain and keep the ImmutableTree of every retained version (read again in every later state)
+	OpColdDelFrom // new instance; DeleteVersionsFrom(v+1) before anything was loaded; Load (an offline rollback)
+	OpHold        // obtain and keep the ImmutableTree of every retained version (read again in every later state)
 )
 
-var opNames = [...]string{"Set", "Remove", "SaveVersion", "Rollback", "Reopen", "LoadVersion", "DeleteVersionsTo", "LoadVersionForOverwriting", "DeleteVersionsFrom+LoadVersion", "SetNil", "Read", "ExportImport", "SaveChangeSet", "ExportOpen", "ExportClose", "HoldVersions"}
+var opNames = [...]string{"Set", "Remove", "SaveVersion", "Rollback", "Reopen", "LoadVersion", "DeleteVersionsTo", "LoadVersionForOverwriting", "DeleteVersionsFrom+LoadVersion", "SetNil", "Read", "ExportImport", "SaveChangeSet", "ExportOpen", "ExportClose", "DeleteVersionsFromOnFreshInstance+Load", "HoldVersions"}
 
 type Op struct {
 	Kind OpKind `json:"kind"`
@@ -127,6 +128,8 @@ func (o Op) String() string {
 		return fmt.Sprintf("ExportOpen(v%d)", o.Ver)
 	case OpExportClose:
 		return fmt.Sprintf("ExportClose(v%d)", o.Ver)
+	case OpColdDelFrom:
+		return fmt.Sprintf("NewInstance; DeleteVersionsFrom(%d); Load", o.Ver+1)
 	case OpHold:
 		return "HoldVersions"
 	}
@@ -135,7 +138,7 @@ func (o Op) String() string {
 
 func isMaint(k OpKind) bool {
 	switch k {
-	case OpReopen, OpLoadVersion, OpDelTo, OpLVFO, OpDelFrom, OpImport:
+	case OpReopen, OpLoadVersion, OpDelTo, OpLVFO, OpDelFrom, OpImport, OpColdDelFrom:
 		return true
 	}
 	return false
@@ -426,6 +429,29 @@ func (w *World) apply(op Op) *Violation {
 		return w.applyExportOpen(op)
 	case OpExportClose:
 		return w.applyExportClose(op)
+	case OpColdDelFrom:
+		for _, es := range w.exps {
+			for _, e := range es {
+				e.Close()
+			}
+		}
+		w.exps = map[int64][]*iavl.Exporter{}
+		w.held, w.heldC = nil, nil
+		_ = w.Tree.Close()
+		w.Tree = w.open(w.Cfg)
+		if err := w.Tree.DeleteVersionsFrom(op.Ver + 1); err != nil {
+			return viol("api", "DeleteVersionsFrom(%d) on a fresh instance: %v", op.Ver+1, err)
+		}
+		got, err := w.Tree.Load()
+		m.Reopen()
+		if m.Has(op.Ver) {
+			m.LoadVersion(op.Ver)
+			m.Truncate(op.Ver)
+		}
+		if err != nil || got != m.Latest {
+			return viol("api", "Load() after DeleteVersionsFrom(%d) on a fresh instance = %d, %v; model latest %d", op.Ver+1, got, err, m.Latest)
+		}
+		return nil
 	case OpHold:
 		w.NHolds++
 		w.held, w.heldC = map[int64]*iavl.ImmutableTree{}, map[int64]smap{}
